@@ -34,9 +34,9 @@ T = {
  'C15': ('exploration', 'independent IR->graph translator compared with build_dag output',
          'The built DAG (nodes, attributes, edges with kwarg_name / is_switch / case_branch, node_map identity, io ids, pool flags) must equal a relation computed directly from the declarations; rebuilt with permuted parameter order.', '4/C15'),
  'C16': ('exploration', 'single-defect injection at every reachable node',
-         'Every valid generated program must build; every applicable (node, defect) pair out of 8 defect kinds must raise the documented error class, wherever the node is reached from (Input, case, decider, candidate, recurrent destination/start).', '4/C16'),
+         'Every valid generated program must build; every applicable (node, defect) pair out of 11 defect kinds must raise the documented error class, wherever the node is reached from (Input, case, decider, candidate, recurrent destination/start).', '4/C16'),
  'C17': ('exploration', 'real-loop / real-pool differential against the mode-free reference + registry-state probes in fresh interpreters',
-         'Same declarations under 6 execution-mode assignments on a real SelectorEventLoop with real thread and fork process pools must give the reference outcome; 48 registry states must fail fast with an error result and zero body invocations when a needed pool is not ready.', '3.8, 4/C17'),
+         'Same declarations under 8 execution-mode assignments (incl. coroutines that carry a pool tag) on a real SelectorEventLoop with real thread and fork process pools must give the reference outcome; 110 registry states (pool missing / shut down / without manager x which pools the declarations need, incl. pipelines whose sync nodes are all non_async and need none) must fail fast with an error result and zero body invocations when a needed pool is not ready, and succeed otherwise.', '3.8, 4/C17'),
  'C18': ('exploration', 'model-based monitor (dict model) over random save/load histories on a real directory',
          'After every operation the result or exception class of FileSystemArtifactStore is compared with a dict keyed by (model, pipeline id, node id); adversarial ids (dotted prefixes, glob metacharacters), both formats, failed saves, several contexts in one directory.', '4/C18'),
  'C19': ('exploration', 'recording write-once artifact store vs reference final values',
